@@ -24,6 +24,8 @@ Definition probe_wf (c : cfg) (ttl : Z) (p : bytes) : bool :=
         (nth 0 p 0 / 16 =? 6) && (i6_hlim h =? ttl) && (i6_len h =? len p - 40) && (i6_nh_raw h =? l4_of c)
         && verifies (i6_payload h) (pseudo (i6_src h) (i6_dst h) (l4_of c) (len (i6_payload h)))
         && (if l4_of c =? 17 then be16 (nth 44 p 0) (nth 45 p 0) =? len p - 40 else true)
+        (* RFC 8200 section 8.1: over IPv6 the UDP checksum is mandatory; a zero field is discarded by the receiver *)
+        && (if l4_of c =? 17 then negb (be16 (nth 46 p 0) (nth 47 p 0) =? 0) else true)
     | None => false
     end
   else
